@@ -98,7 +98,9 @@ func vh_C06_L3_transmission_count() {
 // C06.L2: abandoned or acknowledged chunks are never selected for retransmission by a
 // T3 expiry, whatever their counters say.
 func vh_C06_L2_abandoned_never_resent() {
+	vFlightSizes = []int{5, 2, 3} // the earliest chunk is larger than a small positive peer window
 	f := vInFlight(3, false)
+	vFlightSizes = nil
 	a := f.a
 	a.useForwardTSN = true
 	var wasAbandoned, wasAcked [3]bool
